@@ -504,6 +504,21 @@ def inputs_for(prog, paths, r, tier):
                 ok = False
         if ok:
             out.append(("well", d))
+            # as many unknown keys as known keys are absent, node by node (the mapping keeps its size)
+            if "absent" in combo:
+                d2 = copy.deepcopy(d)
+                added = False
+                for cp in container_paths(perfect):
+                    try:
+                        node, pnode = get_at(d2, cp), get_at(perfect, cp)
+                    except (KeyError, IndexError, TypeError):
+                        continue
+                    if isinstance(node, dict) and isinstance(pnode, dict) and len(node) < len(pnode):
+                        for j in range(len(pnode) - len(node)):
+                            node[f"unk{j}"] = r.choice([5, "e", [1]])
+                            added = True
+                if added:
+                    out.append(("well", d2))
     # extra keys / items at every container node, empty and missing sub-containers
     for cp in container_paths(perfect):
         node = get_at(perfect, cp)
